@@ -45,6 +45,9 @@ structure JPObj where
   -- stanza on every write and answers with the stored object — the model's probes (`probeOk`) only
   -- ever see the status of the STORED object.
   status : Option String := none
+  -- annotations / labels in PKO's own namespace carried by the MANIFEST (revision annotation, cache label):
+  -- deliberately dropped by `toPObj`: what PKO writes is its own value, whatever the manifest says.
+  mann : Option String := none
   deriving FromJson, Repr
 
 structure JSObj where
